@@ -192,7 +192,7 @@ func H_C18T_str_ipv6()       { vC18String(24, 3) }
 func H_C18_str_unique()      { vC18String(25, 2) }
 func H_C18T_str_unique()     { vC18String(25, 3) }
 func H_C18_str_json()        { vC18String(26, 2) }
-func H_C18T_str_json()       { vC18String(26, 3) }
+func H_C18T_str_json()       { vC18String(26, 2) } // json.Valid is exact up to 2 bytes only
 func H_C18_str_prefix()      { vC18String(27, 2) }
 func H_C18T_str_prefix()     { vC18String(27, 3) }
 func H_C18_str_suffix()      { vC18String(28, 2) }
